@@ -132,7 +132,7 @@ def run(ctx: Ctx) -> int:
     rng = random.Random(ctx.seed)
     evs = []
     fams = ["int", "uint", "double", "bool", "string", "bytes", "timestamp", "duration", "list", "list2", "map"]
-    for j in range(800 if q else 20000):
+    for j in range(800 if q else 100000):
         fam = rng.choice(fams)
         a = rand_value(rng, fam)
         b = rand_value(rng, fam) if rng.random() < 0.7 else json.loads(json.dumps(a)) if fam not in ("bytes", "double") else dict(a)
